@@ -340,3 +340,90 @@ from contracts import c12 as _c12
 _eb = _copy.copy(_c12.edges_between)
 _eb.prop = 'C01'
 CONTRACTS.append(_eb)
+
+
+# ------------------------------------------------------------------ do_mapping: every placement is applied exactly once, in order
+PlaceT = TKey('PlaceT')
+Applied = TTuple(TBool, PlaceT, names=['is_block', 'place'])
+
+
+def setup_order(cx):
+    from pyvc.builtins import list_append
+    B0 = cx.val('B0', TSeq(PlaceT))                         # block placements, sorted by key, largest first (popped from the end)
+    M0 = cx.val('M0', TSeq(PlaceT))                         # modification placements, likewise
+    cx.spec_env.update(B0=B0, M0=M0)
+    bkey = cx.uf('bkey', [PlaceT], TInt)                    # block_sort_key(x): the smallest atom key of the placement
+    mkey = cx.uf('mkey', [PlaceT], TInt)                    # mod_sort_key(x)
+    APPLIED = cx.heap('APPLIED', cx.box('APPLIED', TSeq(Applied)))
+    block_matches = cx.box('block_matches', TSeq(PlaceT))
+    mod_matches = cx.box('mod_matches', TSeq(PlaceT))
+    block_matches.e, mod_matches.e = B0.e, M0.e
+
+    def apply_mod(e, match, molecule, graph_out, mol_to_out, out_to_mol):
+        list_append(e, APPLIED, (False, match))
+        return (Box(None, kind='dict'), Box(None, kind='dict'))
+
+    def apply_block(e, match, molecule, graph_out, mol_to_out, out_to_mol):
+        list_append(e, APPLIED, (True, match))
+        return (Box(None, kind='set'), Box(None, kind='set'), Box(None, kind='dict'))
+    cx.spec_env['apply_mod_mapping'] = Builtin(apply_mod, 'apply_mod_mapping')
+    cx.spec_env['apply_block_mapping'] = Builtin(apply_block, 'apply_block_mapping')
+    return dict(block_matches=block_matches, mod_matches=mod_matches, molecule=Obj('Molecule'), graph_out=Obj('graph_out'),
+                mol_to_out=Obj('mol_to_out'), out_to_mol=Obj('out_to_mol'),
+                block_sort_key=Builtin(lambda e, x: SV(TInt, bkey(to_z3(x, PlaceT))), 'block_sort_key'),
+                mod_sort_key=Builtin(lambda e, x: SV(TInt, mkey(to_z3(x, PlaceT))), 'mod_sort_key'),
+                overlapping_mappings=Box(TSet(TInt)), none_to_one_mappings=Box(TSet(TInt)),
+                modified_interactions=Box(TMap(TInt, TInt)), all_references=Box(TMap(TInt, TInt)), all_matches=cx.box('all_matches', TSeq(PlaceT)))
+
+
+ORDER_INV = [
+    "0 <= len(block_matches) and len(block_matches) <= len(B0) and forall(lambda i: implies(0 <= i and i < len(block_matches), block_matches[i] == B0[i]))",
+    "0 <= len(mod_matches) and len(mod_matches) <= len(M0) and forall(lambda i: implies(0 <= i and i < len(mod_matches), mod_matches[i] == M0[i]))",
+    "len(APPLIED) == (len(B0) - len(block_matches)) + (len(M0) - len(mod_matches)) and len(all_matches) == len(APPLIED)",
+    "forall(lambda p: implies(0 <= p and p < len(APPLIED), all_matches[p] == APPLIED[p].place))",
+    # where each placement that has had its turn stands in the record, and which placement each entry of the record is
+    "forall(lambda i: implies(len(block_matches) <= i and i < len(B0), i in g_b and 0 <= g_b[i] and g_b[i] < len(APPLIED) and "
+    "   APPLIED[g_b[i]].is_block and APPLIED[g_b[i]].place == B0[i] and g_k[g_b[i]] == i))",
+    "forall(lambda i: implies(len(mod_matches) <= i and i < len(M0), i in g_m and 0 <= g_m[i] and g_m[i] < len(APPLIED) and "
+    "   not APPLIED[g_m[i]].is_block and APPLIED[g_m[i]].place == M0[i] and g_k[g_m[i]] == i))",
+    "len(g_k) == len(APPLIED) and forall(lambda p: implies(0 <= p and p < len(APPLIED), "
+    "   (len(block_matches) <= g_k[p] and g_k[p] < len(B0) and g_b[g_k[p]] == p) if APPLIED[p].is_block else "
+    "   (len(mod_matches) <= g_k[p] and g_k[p] < len(M0) and g_m[g_k[p]] == p)))",
+    # later in the list = earlier in the record, for blocks and for modifications
+    "forall(lambda i, j: implies(len(block_matches) <= i and i < j and j < len(B0), g_b[j] < g_b[i]))",
+    "forall(lambda i, j: implies(len(mod_matches) <= i and i < j and j < len(M0), g_m[j] < g_m[i]))",
+    # a modification placement goes before a block placement exactly when its key is smaller (a tie goes to the block)
+    "forall(lambda i, j: implies(len(block_matches) <= i and i < len(B0) and len(mod_matches) <= j and j < len(M0), "
+    "   (g_m[j] < g_b[i]) == (mkey(M0[j]) < bkey(B0[i]))))",
+    "forall(lambda i, j: implies(0 <= i and i < len(block_matches) and len(mod_matches) <= j and j < len(M0), mkey(M0[j]) < bkey(B0[i])))",
+    "forall(lambda i, j: implies(len(block_matches) <= i and i < len(B0) and 0 <= j and j < len(mod_matches), mkey(M0[j]) >= bkey(B0[i])))",
+]
+placement_order = FunctionContract(
+    F, 'do_mapping', 'C01', short='do_mapping[every placement once, in order]', setup=setup_order, spec_env=dict(PlaceT=PlaceT),
+    region=dict(start="while block_matches or mod_matches:", end="to_remove = set()"),
+    locals=dict(g_b=TMap(TInt, TInt), g_m=TMap(TInt, TInt), g_k=TSeq(TInt)),
+    requires=["len(old(APPLIED)) == 0 and len(old(all_matches)) == 0",
+              # the two lists are sorted by their keys, largest first (the sorted(..., reverse=True) calls before the loop)
+              "forall(lambda i, j: implies(0 <= i and i < j and j < len(B0), bkey(B0[i]) >= bkey(B0[j])))",
+              "forall(lambda i, j: implies(0 <= i and i < j and j < len(M0), mkey(M0[i]) >= mkey(M0[j])))"],
+    ghost_at={'entry': "g_b = {}\ng_m = {}\ng_k = []"},
+    ensures=ORDER_INV + [
+        # every placement found - block or modification - is applied, exactly once (the maps above are inverse to each other), from
+        # the end of its sorted list; nothing is left
+        "len(block_matches) == 0 and len(mod_matches) == 0 and len(APPLIED) == len(B0) + len(M0)",
+    ],
+    modifies=['APPLIED', 'block_matches', 'mod_matches', 'all_matches', 'overlapping_mappings', 'none_to_one_mappings', 'modified_interactions',
+              'all_references'],
+    loops={'L1': LoopSpec(inv=ORDER_INV,
+                          modifies=['APPLIED', 'block_matches', 'mod_matches', 'all_matches', 'overlapping_mappings', 'none_to_one_mappings',
+                                    'modified_interactions', 'all_references', 'g_b', 'g_m', 'g_k'],
+                          locals=dict(g_nb=TInt),
+                          ghost_pre="g_nb = len(block_matches)",
+                          ghost_end="if len(block_matches) < g_nb:\n    g_b[len(block_matches)] = len(APPLIED) - 1\n    g_k.append(len(block_matches))\n"
+                                    "else:\n    g_m[len(mod_matches)] = len(APPLIED) - 1\n    g_k.append(len(mod_matches))",
+                          decreases="len(block_matches) + len(mod_matches)")},
+    canary=[("match = mod_matches.pop(-1)", "match = mod_matches.pop(0)"),
+            ("all_matches.append(match)", "pass"),
+            ("match = block_matches.pop(-1)", "match = block_matches[-1]")],
+)
+CONTRACTS.append(placement_order)
